@@ -1,6 +1,9 @@
 //! cachelito verification harness (see /verif/DESIGN.md).
 pub mod core_l1;
 pub mod infra;
+pub mod keys;
+pub mod l2_checks;
+pub mod macro_l2;
 pub mod model;
 pub mod props;
 pub mod vals;
